@@ -271,6 +271,8 @@ pub struct State {
 
 /// Load build.ninja/.n2_db and return the loaded build graph and state.
 pub fn read(build_filename: &str) -> anyhow::Result<State> {
+    #[cfg(feature = "verif")]
+    crate::verif::log_event(crate::verif::Event::Note("R".into()));
     let mut loader = Loader::new();
     trace::scope("loader.read_file", || {
         if build_filename.is_empty() {
